@@ -14,7 +14,9 @@ import (
 	"sort"
 
 	corev1 "k8s.io/api/core/v1"
+	kerrors "k8s.io/apimachinery/pkg/api/errors"
 	metav1 "k8s.io/apimachinery/pkg/apis/meta/v1"
+	"k8s.io/apimachinery/pkg/apis/meta/v1/unstructured"
 	"k8s.io/apimachinery/pkg/runtime"
 	"k8s.io/apimachinery/pkg/runtime/schema"
 	"k8s.io/apimachinery/pkg/types"
@@ -29,6 +31,7 @@ import (
 	v1 "github.com/crossplane/crossplane/apis/apiextensions/v1"
 	"github.com/crossplane/crossplane/internal/controller/apiextensions/claim"
 	"github.com/crossplane/crossplane/internal/controller/apiextensions/composite"
+	"sigs.k8s.io/controller-runtime/pkg/client"
 	"sigs.k8s.io/controller-runtime/pkg/reconcile"
 )
 
@@ -62,6 +65,12 @@ type c09Scn struct {
 	Details []c09KV   `json:"details"`
 	Dest    c09Secret `json:"dest"`
 	Rounds  int       `json:"rounds"` // publish this many times (>=1)
+	// environment of the FIRST call. miss: the writer's Get of the destination goes through an
+	// informer cache that has not seen the (existing) secret yet. swap (propagate): when the
+	// write to the claim's secret is attempted, a concurrent writer has just replaced the XR's
+	// secret by a foreign-controlled one and touched the claim's secret.
+	Miss bool `json:"miss,omitempty"`
+	Swap bool `json:"swap,omitempty"`
 	// propagate: from the XR's secret (`src`) to the claim's (`dest`)
 	FromWants bool      `json:"fromWants"`
 	Src       c09Secret `json:"src"`
@@ -153,6 +162,17 @@ func c09View(st *Store, ns, name, ownerUID string) c09Secret {
 	return v
 }
 
+// c09DestApplied counts the write requests to the destination that took effect on the store.
+func c09DestApplied(st *Store, ns, name string) int {
+	n := 0
+	for _, c := range st.Log {
+		if c.IsWrite() && c.GK == "Secret" && c.NS == ns && c.Name == name && !c.DryRun && c.Applied {
+			n++
+		}
+	}
+	return n
+}
+
 func c09DestWrites(st *Store, ns, name string) (int, bool) {
 	n, ch := 0, false
 	for _, c := range st.Log {
@@ -165,6 +185,31 @@ func c09DestWrites(st *Store, ns, name string) (int, bool) {
 	}
 	return n, ch
 }
+
+// c09Cache is the writer's cached client: while `miss` is set, a Get of ns/name answers
+// NotFound although the secret is stored (the call is still logged and fault-planned by simstore).
+type c09Cache struct {
+	*Store
+	ns, name string
+	miss     *bool
+}
+
+func (c c09Cache) Get(ctx context.Context, key client.ObjectKey, obj client.Object, opts ...client.GetOption) error {
+	before := obj.DeepCopyObject()
+	err := c.Store.Get(ctx, key, obj, opts...)
+	if *c.miss && err == nil && key.Namespace == c.ns && key.Name == c.name {
+		// a failed Get leaves the caller's object untouched
+		if sec, ok := obj.(*corev1.Secret); ok {
+			*sec = *(before.(*corev1.Secret))
+		} else if u, ok := obj.(runtime.Unstructured); ok {
+			u.SetUnstructuredContent(before.(runtime.Unstructured).UnstructuredContent())
+		}
+		return kerrors.NewNotFound(schema.GroupResource{Resource: "secrets"}, key.Name)
+	}
+	return err
+}
+
+const c09SwapKey, c09SwapVal = "admin-token", "s3cr3t"
 
 func c09Run(s c09Scn) (c09Obs, []Mon) {
 	sch := runtime.NewScheme()
@@ -183,9 +228,11 @@ func c09Run(s c09Scn) (c09Obs, []Mon) {
 		}
 		c09Seed(st, "ns", "dest", s.Dest, c09OwnerUID)
 		before := c09View(st, "ns", "dest", c09OwnerUID)
-		pub := composite.NewAPIFilteredSecretPublisher(st, s.Filter)
+		miss := false
+		pub := composite.NewAPIFilteredSecretPublisher(c09Cache{Store: st, ns: "ns", name: "dest", miss: &miss}, s.Filter)
 		for i := 0; i < s.Rounds; i++ {
 			st.Log = nil
+			miss = s.Miss && i == 0
 			var p bool
 			var err error
 			prev := st.Snapshot()
@@ -221,7 +268,7 @@ func c09Run(s c09Scn) (c09Obs, []Mon) {
 				}
 			}
 			foreign := s.Dest.Present && (s.Dest.Ctrl == "other" || s.Dest.Ctrl == "xr" || ((s.Dest.Ctrl == "none" || s.Dest.Ctrl == "xrPlain") && !s.Dest.Conn))
-			if foreign && (ch || w > 0) {
+			if foreign && (ch || c09DestApplied(st, "ns", "dest") > 0) {
 				mon("C09:wrote-foreign-secret", "write addressed to a secret controlled by someone else / uncontrolled non-connection secret")
 			}
 			// identical data is never rewritten: if every key that would be written is already stored with that value, no write request and published=false
@@ -235,7 +282,7 @@ func c09Run(s c09Scn) (c09Obs, []Mon) {
 				}
 			}
 			_, existed := prev["Secret/ns/dest"]
-			if s.Wants && existed && !foreign && !need && (w > 0 || p) {
+			if s.Wants && existed && !foreign && !need && (c09DestApplied(st, "ns", "dest") > 0 || p) {
 				mon("C09:rewrote-identical", fmt.Sprintf("all published keys already stored with equal values, yet writes=%d published=%v", w, p))
 			}
 		}
@@ -256,9 +303,32 @@ func c09Run(s c09Scn) (c09Obs, []Mon) {
 		}
 		c09Seed(st, "xrns", "src", s.Src, c09OwnerUID)
 		c09Seed(st, "ns", "dest", s.Dest, c09OwnerUID)
-		prop := claim.NewAPIConnectionPropagator(st)
+		miss := false
+		prop := claim.NewAPIConnectionPropagator(c09Cache{Store: st, ns: "ns", name: "dest", miss: &miss})
+		swapped := false
 		for i := 0; i < s.Rounds; i++ {
 			st.Log = nil
+			miss = s.Miss && i == 0
+			st.Before = nil
+			if s.Swap && i == 0 {
+				st.Before = func(c CallInfo) {
+					if swapped || !c.IsWrite() || c.GK != "Secret" || c.NS != "ns" || c.Name != "dest" {
+						return
+					}
+					swapped = true
+					gk := schema.GroupKind{Kind: "Secret"}
+					st.Remove(gk, "xrns", "src")
+					c09Seed(st, "xrns", "src", c09Secret{Present: true, Conn: !s.Src.Present || s.Src.Conn, Ctrl: "other", Data: []c09KV{{K: c09SwapKey, V: c09SwapVal}}}, c09OwnerUID)
+					st.Mutate(gk, "ns", "dest", func(u *unstructured.Unstructured) {
+						l := u.GetLabels()
+						if l == nil {
+							l = map[string]string{}
+						}
+						l["touched-by"] = "someone-else"
+						u.SetLabels(l)
+					})
+				}
+			}
 			var p bool
 			var err error
 			if pn := Guard(func() { p, err = prop.PropagateConnection(context.Background(), cm, xr) }); pn != "" {
@@ -270,20 +340,27 @@ func c09Run(s c09Scn) (c09Obs, []Mon) {
 			obs.Writes = append(obs.Writes, w)
 			obs.Changed = append(obs.Changed, ch)
 			srcOK := s.Src.Present && s.Src.Ctrl == "xr"
-			if !srcOK && (w > 0 || ch) && s.FromWants && s.Wants {
+			if !srcOK && !swapped && (w > 0 || ch) && s.FromWants && s.Wants {
 				mon("C09:propagated-unowned-source", "claim secret written although the source secret is not controlled by the bound XR")
 			}
 			if p && err == nil {
 				d := c09View(st, "ns", "dest", c09OwnerUID)
-				if mustJSON(d.Data) != mustJSON(c09KVs(c09Map(s.Src.Data))) {
+				if mustJSON(d.Data) != mustJSON(c09KVs(c09Map(s.Src.Data))) || (swapped && i > 0) {
 					mon("C09:copy-not-exact", "claim secret data differs from the XR secret data after a successful propagation")
 				}
 			}
 			if i > 0 && (w > 0 || p) && obs.Errs[i-1] == false && obs.Published[i-1] {
 				mon("C09:rewrote-identical", "second propagation of identical data wrote again")
 			}
+			if swapped {
+				for _, kv := range c09View(st, "ns", "dest", c09OwnerUID).Data {
+					if kv.K == c09SwapKey && kv.V == c09SwapVal {
+						mon("C09:foreign-source-copied", "the claim's secret holds data of a secret that is not controlled by the bound XR (it replaced the XR's secret while the claim's secret was being written)")
+					}
+				}
+			}
 			foreign := s.Dest.Present && (s.Dest.Ctrl == "other" || s.Dest.Ctrl == "xr" || ((s.Dest.Ctrl == "none" || s.Dest.Ctrl == "xrPlain") && !s.Dest.Conn))
-			if foreign && (ch || w > 0) {
+			if foreign && (ch || c09DestApplied(st, "ns", "dest") > 0) {
 				mon("C09:wrote-foreign-secret", "write addressed to a secret controlled by someone else / uncontrolled non-connection secret")
 			}
 		}
@@ -377,6 +454,7 @@ func c09Gen(r *Rng) c09Scn {
 			}
 		}
 		s.Dest = c09GenSecret(r, keys)
+		s.Miss = r.Chance(1, 5)
 	case "propagate":
 		s.Wants = r.Chance(5, 6)
 		s.FromWants = r.Chance(5, 6)
@@ -385,6 +463,8 @@ func c09Gen(r *Rng) c09Scn {
 			s.Src.Present, s.Src.Ctrl = true, "xr"
 		}
 		s.Dest = c09GenSecret(r, keys)
+		s.Miss = r.Chance(1, 6)
+		s.Swap = r.Chance(1, 4)
 	case "extract":
 		n := r.Range(0, 4)
 		for i := 0; i < n; i++ {
